@@ -159,6 +159,11 @@ fn sc_mz_deflate(rep: &mut Report, rng: &mut Rng, instr: Instr, max: usize) {
             break;
         }
     }
+    // (the per-call output buffers are gone by now: do not leave stale pointers in the stream)
+    s.next_in = std::ptr::null();
+    s.avail_in = 0;
+    s.next_out = std::ptr::null_mut();
+    s.avail_out = 0;
     unsafe { mz_deflateEnd(&mut s) };
     if calls >= 2 {
         let mut h = Hasher::new();
@@ -245,6 +250,10 @@ fn sc_mz_inflate(rep: &mut Report, rng: &mut Rng, instr: Instr, max: usize) {
             break;
         }
     }
+    s.next_in = std::ptr::null();
+    s.avail_in = 0;
+    s.next_out = std::ptr::null_mut();
+    s.avail_out = 0;
     unsafe { mz_inflateEnd(&mut s) };
     if calls >= 2 {
         let mut h = Hasher::new();
@@ -514,7 +523,8 @@ fn sc_tinfl(rep: &mut Report, rng: &mut Rng, instr: Instr, max: usize, skip_heap
             let flags = base | if ring { 0 } else { 4 } | if more { 2 } else { 0 };
             let mut in_size = chunk;
             let mut out_size = size - opos;
-            let st = tinfl_decompress(r, input.ptr().add(pos), &mut in_size, obuf.ptr(), obuf.ptr().add(opos), &mut out_size, flags);
+            let obase = obuf.ptr();
+            let st = tinfl_decompress(r, input.ptr().add(pos), &mut in_size, obase, obase.add(opos), &mut out_size, flags);
             rep.eval();
             rep.count("tinfl_decompress_calls");
             let tr = decompress(&mut twin, &bytes[pos..pos + chunk], &mut tbuf, opos, flags);
@@ -570,8 +580,11 @@ fn sc_tinfl(rep: &mut Report, rng: &mut Rng, instr: Instr, max: usize, skip_heap
             let p = tinfl_decompress_mem_to_heap(sptr as *const c_void, bytes.len(), &mut out_len, base as c_int);
             rep.eval();
             let got = if p.is_null() { None } else { Some(std::slice::from_raw_parts(p as *const u8, out_len).to_vec()) };
-            if got != rust {
-                rep.violation("C17:tinfl_decompress_mem_to_heap-differs", format!("heap result {:?} bytes vs Rust {:?}", got.as_ref().map(|v| v.len()), rust.as_ref().map(|v| v.len())), det(&what, vec![("stream_hex", Json::s(&hex_short(&bytes, 200)))]));
+            // the Rust counterpart of the growing-buffer helper is the vector function
+            let vecres = if zl { miniz_oxide::inflate::decompress_to_vec_zlib_with_limit(&bytes, 256 << 20) } else { miniz_oxide::inflate::decompress_to_vec_with_limit(&bytes, 256 << 20) };
+            let want = vecres.ok();
+            if got != want {
+                rep.violation("C17:tinfl_decompress_mem_to_heap-differs", format!("heap result {:?} bytes vs decompress_to_vec {:?}", got.as_ref().map(|v| v.len()), want.as_ref().map(|v| v.len())), det(&what, vec![("stream_hex", Json::s(&hex_short(&bytes, 200)))]));
             }
             if !p.is_null() {
                 miniz_def_free_func(std::ptr::null_mut(), p);
@@ -655,6 +668,14 @@ fn expect(cond: bool, what: String) -> Result<String, String> {
     }
 }
 
+/// Callers may free their buffers before End; the harness does not leave stale pointers behind.
+fn clear_ptrs(s: &mut mz_stream) {
+    s.next_in = std::ptr::null();
+    s.avail_in = 0;
+    s.next_out = std::ptr::null_mut();
+    s.avail_out = 0;
+}
+
 type Row = (&'static str, Box<dyn Fn() -> Result<String, String>>);
 
 fn misuse_rows() -> Vec<Row> {
@@ -695,6 +716,7 @@ fn misuse_rows() -> Vec<Row> {
                     bad.push((level, -999));
                 }
             }
+            clear_ptrs(&mut s);
             mz_deflateEnd(&mut s);
         }
         expect(bad.is_empty(), format!("levels with odd results: {:?}", bad))
@@ -707,6 +729,7 @@ fn misuse_rows() -> Vec<Row> {
             if (m == 8) != (rc == 0) || (rc != 0 && rc >= 0) {
                 bad.push((m, rc));
             }
+            clear_ptrs(&mut s);
             mz_deflateEnd(&mut s);
         }
         expect(bad.is_empty(), format!("{:?}", bad))
@@ -719,6 +742,7 @@ fn misuse_rows() -> Vec<Row> {
             if ((w == 15 || w == -15) != (rc == 0)) || (rc != 0 && rc >= 0) {
                 bad.push((w, rc));
             }
+            clear_ptrs(&mut s);
             mz_deflateEnd(&mut s);
         }
         expect(bad.is_empty(), format!("{:?}", bad))
@@ -731,6 +755,7 @@ fn misuse_rows() -> Vec<Row> {
             if ((1..=9).contains(&m) != (rc == 0)) || (rc != 0 && rc >= 0) {
                 bad.push((m, rc));
             }
+            clear_ptrs(&mut s);
             mz_deflateEnd(&mut s);
         }
         expect(bad.is_empty(), format!("{:?}", bad))
@@ -743,6 +768,7 @@ fn misuse_rows() -> Vec<Row> {
             if rc != 0 && rc >= 0 {
                 bad.push((st, rc));
             }
+            clear_ptrs(&mut s);
             mz_deflateEnd(&mut s);
         }
         expect(bad.is_empty(), format!("{:?}", bad))
@@ -755,6 +781,7 @@ fn misuse_rows() -> Vec<Row> {
             if ((w == 15 || w == -15) != (rc == 0)) || (rc != 0 && rc >= 0) {
                 bad.push((w, rc));
             }
+            clear_ptrs(&mut s);
             mz_inflateEnd(&mut s);
         }
         expect(bad.is_empty(), format!("{:?}", bad))
@@ -774,6 +801,7 @@ fn misuse_rows() -> Vec<Row> {
             if valid != (rc >= 0) {
                 bad.push((f, rc));
             }
+            clear_ptrs(&mut s);
             mz_deflateEnd(&mut s);
         }
         expect(bad.is_empty(), format!("{:?}", bad))
@@ -795,6 +823,7 @@ fn misuse_rows() -> Vec<Row> {
             if valid != (rc >= 0) {
                 bad.push((f, rc));
             }
+            clear_ptrs(&mut s);
             mz_inflateEnd(&mut s);
         }
         expect(bad.is_empty(), format!("{:?}", bad))
@@ -816,6 +845,7 @@ fn misuse_rows() -> Vec<Row> {
             s.next_out = if null_out { std::ptr::null_mut() } else { out.as_mut_ptr() };
             s.avail_out = aout;
             let rc = mz_deflate(&mut s, 4);
+            clear_ptrs(&mut s);
             mz_deflateEnd(&mut s);
             expect(rc < 0, format!("rc {}", rc))
         })));
@@ -836,6 +866,7 @@ fn misuse_rows() -> Vec<Row> {
             s.next_out = if null_out { std::ptr::null_mut() } else { out.as_mut_ptr() };
             s.avail_out = aout;
             let rc = mz_inflate(&mut s, 0);
+            clear_ptrs(&mut s);
             mz_inflateEnd(&mut s);
             expect(rc < 0, format!("rc {}", rc))
         })));
@@ -852,7 +883,8 @@ fn misuse_rows() -> Vec<Row> {
         let rc = mz_inflate(&mut s, 0);
         let rc2 = mz_inflateEnd(&mut s);
         let rc3 = mz_deflate(&mut s, 4); // the deflate stream must still work
-        mz_deflateEnd(&mut s);
+        clear_ptrs(&mut s);
+            mz_deflateEnd(&mut s);
         expect(rc < 0 && rc2 < 0 && rc3 == 1, format!("mz_inflate {} mz_inflateEnd {} then mz_deflate {}", rc, rc2, rc3))
     });
     row!("mz_deflate on an inflate stream", {
@@ -866,7 +898,8 @@ fn misuse_rows() -> Vec<Row> {
         let rc = mz_deflate(&mut s, 0);
         let rc2 = mz_deflateReset(&mut s);
         let rc3 = mz_deflateEnd(&mut s);
-        mz_inflateEnd(&mut s);
+        clear_ptrs(&mut s);
+            mz_inflateEnd(&mut s);
         expect(rc < 0 && rc2 < 0 && rc3 < 0, format!("{} {} {}", rc, rc2, rc3))
     });
     row!("calls on a zeroed, never initialised stream", {
@@ -1043,7 +1076,8 @@ fn misuse_rows() -> Vec<Row> {
         let mut o = [0u8; 64];
         let mut isz = 0usize;
         let mut osz = 64usize;
-        let st = tinfl_decompress(r, std::ptr::null(), &mut isz, o.as_mut_ptr(), o.as_mut_ptr(), &mut osz, 4 | 2);
+        let op = o.as_mut_ptr();
+        let st = tinfl_decompress(r, std::ptr::null(), &mut isz, op, op, &mut osz, 4 | 2);
         tinfl_decompressor_free(r);
         expect(st == 1 && isz == 0 && osz == 0, format!("status {} ({}, {})", st, isz, osz))
     });
